@@ -21,7 +21,7 @@ func XMultiSameMethod() *spec.Spec {
 
 // Extended returns the extended families (everything beyond the documented core combinations).
 func Extended(thorough bool) []*spec.Spec {
-	out := []*spec.Spec{XMultiSameMethod(), XCrossFile(), XTwoServiceFiles(), XTimestampCards(), XTimestampCardsFmt(), XEmptyOrders(), XOneofSiblings(), XSharedMethodHeader(), XQuotedHeaderTexts(), XQuotedAnnotationValues(), XForeignResponse(), XSameNamedNestedEnums(), XOneofVariantShapes(), XInt64Cards(), XHeaderNameShapes(), XParamNameClashes()}
+	out := []*spec.Spec{XMultiSameMethod(), XCrossFile(), XTwoServiceFiles(), XTimestampCards(), XTimestampCardsFmt(), XEmptyOrders(), XOneofSiblings(), XSharedMethodHeader(), XQuotedHeaderTexts(), XQuotedAnnotationValues(), XForeignResponse(), XSameNamedNestedEnums(), XOneofVariantShapes(), XInt64Cards(), XHeaderNameShapes(), XParamNameClashes(), XHeaderOverrideShapes()}
 	out = append(out, XAnnotationCards()...)
 	out = append(out, XIdentifierShapes()...)
 	out = append(out, CtxSpecs()...)
@@ -447,4 +447,30 @@ func XParamNameClashes() *spec.Spec {
 		spec.RPC("AllThree", "AllThreeReq", "Out", "GET", "/keys/{key}").H(h("key")),
 	).H(h("tenant"))}}
 	return withCell(spec.One("x_param_name_clashes", f), "ext/unit=param_name_clashes", "extended", "valid")
+}
+
+// XHeaderOverrideShapes: the override family - a service header (required, string, format uuid) and a second one (required,
+// integer) re-declared at method level in every way: stricter, same, relaxed to optional keeping the format, relaxed to an
+// optional plain string, required without format, another type, another format; plus a method that re-declares nothing.
+func XHeaderOverrideShapes() *spec.Spec {
+	id := func(typ, format string, req bool) *spec.Header { return &spec.Header{Name: "X-Request-ID", Type: typ, Format: format, Required: req} }
+	n := func(typ, format string, req bool) *spec.Header { return &spec.Header{Name: "X-Count", Type: typ, Format: format, Required: req} }
+	msgs := []*spec.Message{spec.M("Req", spec.F("name", "string")), spec.M("Out", spec.F("ok", "bool"))}
+	rpc := func(name string, hs ...*spec.Header) *spec.Method {
+		return spec.RPC(name, "Req", "Out", "POST", "/"+strings.ToLower(name)).H(hs...)
+	}
+	f := &spec.File{Messages: msgs, Services: []*spec.Service{spec.Svc("OverrideShapeService", "/os",
+		rpc("Inherit"),
+		rpc("Same", id("string", "uuid", true)),
+		rpc("OptionalUuid", id("string", "uuid", false)),
+		rpc("OptionalPlain", id("string", "", false)),
+		rpc("OptionalUntyped", id("", "", false)),
+		rpc("RequiredPlain", id("string", "", true)),
+		rpc("RequiredInteger", id("integer", "", true)),
+		rpc("RequiredEmail", id("string", "email", true)),
+		rpc("CountOptional", n("integer", "", false)),
+		rpc("CountString", n("string", "", true)),
+		rpc("BothRelaxed", id("string", "", false), n("", "", false)),
+	).H(id("string", "uuid", true), n("integer", "", true))}}
+	return withCell(spec.One("x_header_override_shapes", f), "ext/unit=header_override_shapes", "extended", "valid")
 }
